@@ -40,8 +40,13 @@ def filter_types():
     W16 = general.InstanceEventFilter("W16", {"b%d" % k: 1 << k for k in range(12)})
     W24 = general.InstanceEventFilter("W24", {"b%d" % k: 1 << k for k in range(20)})
     F24 = general.InstanceEventFilter("F24", {"b%d" % k: 1 << k for k in range(24)})
+    # the same, with the flags declared the other way round (as in a "bit 11 .. bit 0" table) or in no particular order
+    W16d = general.InstanceEventFilter("W16d", {"b%d" % k: 1 << k for k in reversed(range(12))})
+    F24d = general.InstanceEventFilter("F24d", {"b%d" % k: 1 << k for k in reversed(range(24))})
+    W24s = general.InstanceEventFilter("W24s", {"b%d" % k: 1 << k for k in (3, 19, 0, 11, 7, 16, 1, 9, 18, 2, 4, 5, 6, 8, 10, 12, 13, 14, 15, 17)})
     for name, t in (("pushbutton", pushbutton.InstanceEventFilter), ("occupancy", occupancy.InstanceEventFilter),
-                    ("light", light.InstanceEventFilter), ("W16", W16), ("W24", W24), ("F24", F24)):
+                    ("light", light.InstanceEventFilter), ("W16", W16), ("W24", W24), ("F24", F24),
+                    ("W16d", W16d), ("F24d", F24d), ("W24s", W24s)):
         _FILTER_TYPES[name] = t
     return _FILTER_TYPES
 
@@ -208,7 +213,7 @@ def cases(tier, seed):
                 dev = {"short": 7, "status": 0, "inst": [_inst(rng, res=res)]}
                 cs.append({"seq": "input", "bus": _bus([dev], rng, fault=(at, fk)), "target": [1, 0], "resolution": None})
     # filters
-    widths = {"pushbutton": 8, "occupancy": 8, "light": 8, "W16": 16, "W24": 24, "F24": 24}
+    widths = {"pushbutton": 8, "occupancy": 8, "light": 8, "W16": 16, "W24": 24, "F24": 24, "W16d": 16, "F24d": 24, "W24s": 24}
     nbits = {"pushbutton": 8, "occupancy": None, "light": None, "W16": 12, "W24": 20, "F24": 24}
     ft = filter_types()
     for name, t in ft.items():
